@@ -26,6 +26,7 @@ fn parts_menu() -> Vec<(&'static str, Part)> {
         ("#10", Part::CharRef('\n')),
         ("#13", Part::CharRef('\r')),
         ("#x41", Part::CharRef('A')),
+        ("NBSP", t("\u{a0}\u{3000}")),
         ("amp", e("amp")),
         ("lt", e("lt")),
         ("e1", e("e1")),
@@ -268,6 +269,7 @@ impl Space for Values {
                     "#32" => "charref-space",
                     "#9" | "#10" | "#13" => "charref-ws",
                     "#x41" => "charref",
+                    "NBSP" => "non-xml-space",
                     "amp" | "lt" => "predefined",
                     "e1" => "entity",
                     "e2" | "e5" => "entity-with-ws",
@@ -440,9 +442,9 @@ impl Check for C11C {
     }
     fn meta(&self) -> Meta {
         Meta {
-            rule: "stage values: ALL sequences of at most n parts over 20 attribute-value parts (text a / b, one and two spaces, literal TAB, LF, CR, CR LF, character references to space, TAB, LF, CR and A, &amp; &lt;, entities with plain text, with literal TAB/LF/spaces, with a character reference to LF inside, nested, padded with blanks) as the value of attribute a of the root, x declared type {undeclared, CDATA, NMTOKENS, ID, NMTOKEN, enumeration}; expected value by XML 1.0 3.3.3 step by step on the abstract value (mc/src/model/adoc.rs Dtd::normalize_parts; tokenized types collapse blanks). Compared: Attr::value, Attr::specified, Element::get_attribute, attributes().length(), XPath string(/r/@a). Stage defaults: 7 default kinds (#IMPLIED, #REQUIRED, value, #FIXED, value with blanks, value with references, empty value) x 3 types x written / not written x 8 placements (single ATTLIST, second ATTLIST for the element, definition repeated in a later ATTLIST and within one ATTLIST (first binds), ATTLIST for another element first, prefixed attribute name, two attributes, attribute of the child element); attributes of the root and of its child compared. Non-trivial = the element has attributes.",
-            bounds_quick: "values: <= 3 parts (8,421 sequences) x 6 types; defaults: 336 documents",
-            bounds_thorough: "values: <= 4 parts (168,421 sequences) x 6 types; defaults: 336 documents",
+            rule: "stage values: ALL sequences of at most n parts over 21 attribute-value parts (text a / b, one and two spaces, literal TAB, LF, CR, CR LF, character references to space, TAB, LF, CR and A, &amp; &lt;, entities with plain text, with literal TAB/LF/spaces, with a character reference to LF inside, nested, padded with blanks) as the value of attribute a of the root, x declared type {undeclared, CDATA, NMTOKENS, ID, NMTOKEN, enumeration}; expected value by XML 1.0 3.3.3 step by step on the abstract value (mc/src/model/adoc.rs Dtd::normalize_parts; tokenized types collapse blanks). Compared: Attr::value, Attr::specified, Element::get_attribute, attributes().length(), XPath string(/r/@a). Stage defaults: 7 default kinds (#IMPLIED, #REQUIRED, value, #FIXED, value with blanks, value with references, empty value) x 3 types x written / not written x 8 placements (single ATTLIST, second ATTLIST for the element, definition repeated in a later ATTLIST and within one ATTLIST (first binds), ATTLIST for another element first, prefixed attribute name, two attributes, attribute of the child element); attributes of the root and of its child compared. Non-trivial = the element has attributes.",
+            bounds_quick: "values: <= 3 parts (9,724 sequences) x 6 types; defaults: 336 documents",
+            bounds_thorough: "values: <= 4 parts (204,205 sequences) x 6 types; defaults: 336 documents",
             assumptions: &["entities whose replacement text contains '&' or '<' are outside the attribute-value model", "line-end normalization (XML 1.0 2.11) is applied to literal CR and CR LF before 3.3.3"],
             unbounded_total: false,
         }
